@@ -272,7 +272,7 @@ pub fn defs() -> Vec<CheckDef> {
             block: 2048,
             gen: gen_c13,
             exec: crate::proto::exec_inflate_proto,
-            rule: "runs 0..E-1 enumerate EVERY call history of depth <= 3 (quick; 4 thorough) over the alphabet (input chunk 0/1/2/rest) x (output 0/1/3/large) x (flush None/Sync/Finish/Full) on fixed short streams of the four kinds valid / truncated / corrupt / trailing bytes; the remaining runs are seeded random histories (<= 300 calls, any flush on any call) on streams up to 120 KiB; every history is followed by the canonical driver loop with 1 / 3 / random / 4096-byte grants; non-trivial = more than one call or a fault; distinct = shape fingerprint",
+            rule: "runs 0..E-1 enumerate EVERY call history of depth <= 3 (quick; 4 thorough) over the alphabet (input chunk 0/1/2/rest) x (output 0/1/3/large) x (flush None/Sync/Finish/Full) on fixed short streams of the four kinds valid / truncated / corrupt / trailing bytes; the remaining runs are seeded random histories (<= 300 calls, any flush on any call) on streams up to 120 KiB, one in eight preceded by an exact-fit first call (whole stream offered, output = the plaintext length or one less); every history is followed by the canonical driver loop with 1 / 3 / random / 4096-byte grants; non-trivial = more than one call or a fault; distinct = shape fingerprint",
             shrink_cfg: &["tail_grant"],
             shrink_blobs: false,
             assumptions: ASSUME,
